@@ -327,6 +327,10 @@ var typeErrorQueries = []struct{ name, sql string }{
 	{"union.left", "SELECT ('x' + 1) AS v FROM t1 UNION ALL SELECT un1 AS v FROM u1"},
 	{"union.right", "SELECT un1 AS v FROM u1 UNION ALL SELECT ('x' + 1) AS v FROM t1"},
 	{"raise", "SELECT rid, RAISE('always') FROM t1"},
+	{"selector.from", "SELECT * FROM `t1[last]`"},
+	{"selector.range", "SELECT * FROM `t1[(1:x)]` WHERE n1 >= 0"},
+	{"selector.column", "SELECT rid, `arr[abc].e` AS v FROM t1"},
+	{"selector.continued", "SELECT rid, `arr[each].e::[oops]` AS v FROM t1"},
 }
 
 // followUps: the battery run after a failed query on the same input object.
